@@ -15,9 +15,15 @@ import (
 
 var vsymC20Keys = []string{partitionLeasePrefix + "/orders/0", partitionLeasePrefix + "/orders/1"}
 
+// vsymC20UseGroups switches the harness to the group router's keys (set before the run starts)
+func vsymC20UseGroups() {
+	vsymC20Keys = []string{groupLeasePrefix + "/g0", groupLeasePrefix + "/g1"}
+}
+
 func vsymC20Change(e *vsymEtcd, tag string) {
-	k := vsymC20Keys[vsym_Choose(tag+"-key", 2)]
-	switch vsym_Choose(tag+"-op", 3) {
+	op := vsym_Choose(tag+"-op", 8)
+	k := vsymC20Keys[op&1]
+	switch op >> 1 {
 	case 0:
 		e.put(k, []byte("broker-a"), 0)
 	case 1:
@@ -25,12 +31,37 @@ func vsymC20Change(e *vsymEtcd, tag string) {
 	case 2:
 		e.del(k, "")
 	}
+	switch op {
+	case 6: // one transaction gives broker-a both partitions (one revision)
+		e.atomically(func() {
+			e.put(vsymC20Keys[0], []byte("broker-a"), 0)
+			e.put(vsymC20Keys[1], []byte("broker-a"), 0)
+		})
+	case 7: // a session ends: every lease key goes in one revision
+		e.atomically(func() {
+			e.del(vsymC20Keys[0], "")
+			e.del(vsymC20Keys[1], "")
+		})
+	}
 }
 
 func VsymC20_Converges() {
+	groups := vsym_Param("router") == 1
+	vsymC20Keys = []string{partitionLeasePrefix + "/orders/0", partitionLeasePrefix + "/orders/1"}
+	if groups {
+		vsymC20UseGroups()
+	}
 	e := newVsymEtcd()
 	cli := e.client("proxy")
 	nBefore, nDuring, nAfter := vsym_Param("before"), vsym_Param("during"), vsym_Param("after")
+	// the shapes explored (the full product is too large): changes while the router starts are
+	// combined with at most one other change, and not with a change in a stream gap
+	if nDuring == 1 && (nBefore+nAfter == 2 || vsym_Param("interrupt") == 2) {
+		return
+	}
+	if groups && nDuring == 1 && nBefore+nAfter > 0 {
+		return
+	}
 	for i := 0; i < nBefore; i++ {
 		vsymC20Change(e, "before")
 	}
@@ -46,11 +77,24 @@ func VsymC20_Converges() {
 		}
 	})
 	ctx, cancel := context.WithCancel(context.Background())
-	r, err := NewPartitionRouter(ctx, cli, nil)
+	var r *PartitionRouter
+	var gr *GroupRouter
+	var err error
+	if groups {
+		gr, err = NewGroupRouter(ctx, cli, nil)
+	} else {
+		r, err = NewPartitionRouter(ctx, cli, nil)
+	}
 	vsym_Assert(err == nil, "C20/router-starts")
 	vsym_Join()
-	if vsym_Param("interrupt") == 1 {
+	switch vsym_Param("interrupt") {
+	case 1:
 		e.interruptWatches()
+		vsym_Settle()
+	case 2:
+		// the stream breaks and a change lands before the router has re-established it
+		e.interruptWatches()
+		vsymC20Change(e, "gap")
 		vsym_Settle()
 	}
 	for i := 0; i < nAfter; i++ {
@@ -62,6 +106,11 @@ func VsymC20_Converges() {
 		want := ""
 		if en, ok := e.data[k]; ok {
 			want = string(en.value)
+		}
+		if groups {
+			id, _ := groupLeaseKeyToGroupID(k)
+			vsym_Assert(gr.LookupOwner(id) == want, "C20/routing-table-matches-etcd-at-quiescence")
+			continue
 		}
 		rk, _ := leaseKeyToRouteKey(k)
 		topic, part, _ := parsePartitionKey(rk)
